@@ -18,7 +18,7 @@ demo=$(ls SEED/demo/*.rs 2>/dev/null | head -1)
 run_demo() { # copies the demo test into tests/ and runs it
   if [ -n "$demo" ]; then
     cp $demo tests/seed_demo.rs
-    timeout 1800 cargo test --offline -p async-graphql --test seed_demo 2>&1 | tail -15
+    timeout 1800 cargo test --offline -p async-graphql ${FEATURES:+--features $FEATURES} --test seed_demo 2>&1 | tail -15
     rc=${PIPESTATUS[0]}
     rm -f tests/seed_demo.rs
     return $rc
@@ -34,7 +34,7 @@ pk="-p async-graphql"
 grep -q "^+++ b/parser" SEED/patch.diff && pk="$pk -p async-graphql-parser"
 grep -q "^+++ b/value" SEED/patch.diff && pk="$pk -p async-graphql-value"
 grep -q "^+++ b/derive" SEED/patch.diff && pk="$pk -p async-graphql-derive"
-timeout 3000 cargo test --offline $pk --lib --bins --tests 2>&1 | grep -E "^test result|FAILED|failed" | sort | uniq -c | tail -8 >> $log
+timeout 3000 cargo test --offline $pk ${FEATURES:+--features $FEATURES} --lib --bins --tests 2>&1 | grep -E "^test result|FAILED|failed" | sort | uniq -c | tail -8 >> $log
 t=${PIPESTATUS[0]}
 git checkout -q -- .
 echo "RESULT demo_without=$d0 demo_with=$d1 tests_with=$t" | tee -a $log
